@@ -283,3 +283,25 @@ Example C03_index_path_model_example :
   snd (ctx_get c_users (Sb "users[i].name"%string)) = VStr (Sb "bob"%string) /\
   snd (ctx_get (set_chQB false c_users) (Sb "users[i].name"%string)) = VNil.
 Proof. exact index_path_model_example. Qed.
+
+(* ---- the parser's side of "else iff empty" (Model/Parser.v, Proofs/ParserPieces.v): what stands
+        between the loop tag and its end tag is split at the else tag into body and else branch;
+        an else tag with nothing behind it is an EMPTY else branch (before the repair of splitNodes
+        the else tag stayed in the body as a node the renderer does not know), no else tag means no
+        else branch.  [loop_children] is the specification-side compiler's. ---- *)
+From DT Require Import Model.Regex Model.ParserRe Model.Parser Proofs.ParserPieces.
+
+Theorem C03_parser_loop_with_else : forall a b, no_div a = true -> no_div b = true ->
+  loop_children_p (a ++ NOther 16 :: b) = Spec.Compile.loop_children a b true.
+Proof. exact loop_children_p_else. Qed.
+Print Assumptions C03_parser_loop_with_else.
+
+Theorem C03_parser_loop_without_else : forall a, no_div a = true ->
+  loop_children_p a = Spec.Compile.loop_children a [] false.
+Proof. exact loop_children_p_no_else. Qed.
+Print Assumptions C03_parser_loop_without_else.
+
+Theorem C03_parser_loop_empty_else : forall a, no_div a = true ->
+  loop_children_p (a ++ [NOther 16]) = Spec.Compile.loop_children a [] true.
+Proof. exact loop_children_p_trailing_else. Qed.
+Print Assumptions C03_parser_loop_empty_else.
